@@ -564,5 +564,73 @@ theorem rt_zip (env : JEnv) : ∀ (vs : List Payload) (es ves : List Ty), ZipH e
           hua ks osK ns ts os (by simpa using hk) (by simpa using ho) hf.2]
 end
 
+/-! ### a value against its own type: no inexact position -/
+mutual
+theorem exactK_self : ∀ (p : Payload) (vt : Ty), wf vt = true → wfP vt p = true →
+    exactK vt vt p = true
+  | .null, vt, hw, _ => by simp [exactK, (Ty.equals_iff_eq vt vt hw hw).mpr rfl]
+  | .unk _, _, _, _ => by simp [exactK]
+  | .b _, _, _, _ => by simp [exactK]
+  | .n _, _, _, _ => by simp [exactK]
+  | .s _, _, _, _ => by simp [exactK]
+  | .caps, _, _, _ => by simp [exactK]
+  | .bad _, _, _, _ => by simp [exactK]
+  | .marked _ _, _, _, _ => by simp [exactK]
+  | .seq vs, vt, hw, hp => by
+    cases vt with
+    | list ve =>
+      simp only [wf] at hw
+      simp only [wfP] at hp
+      simp only [exactK]
+      split
+      · exact (Ty.equals_iff_eq ve ve hw hw).mpr rfl
+      · exact exactAll_self vs ve hw hp
+    | tuple ves =>
+      simp only [wf] at hw
+      simp only [wfP, Bool.and_eq_true] at hp
+      simp only [exactK]
+      exact exactZip_self vs ves hw hp.2
+    | _ => simp [wfP] at hp
+  | .smap ks vs, vt, hw, hp => by
+    cases vt with
+    | map ve =>
+      simp only [wf] at hw
+      simp only [wfP, Bool.and_eq_true] at hp
+      simp only [exactK]
+      split
+      · exact (Ty.equals_iff_eq ve ve hw hw).mpr rfl
+      · exact exactAll_self vs ve hw hp.2
+    | object ns ts os =>
+      simp only [wf, Bool.and_eq_true] at hw
+      simp only [wfP, Bool.and_eq_true] at hp
+      simp only [exactK]
+      exact exactZip_self vs ts hw.2 hp.2
+    | _ => simp [wfP] at hp
+  | .sset ids vs, vt, hw, hp => by
+    cases vt with
+    | set ve =>
+      simp only [wf] at hw
+      simp only [wfP, Bool.and_eq_true] at hp
+      simp only [exactK]
+      split
+      · exact (Ty.equals_iff_eq ve ve hw hw).mpr rfl
+      · exact exactAll_self vs ve hw hp.2
+    | _ => simp [wfP] at hp
+theorem exactAll_self : ∀ (vs : List Payload) (ve : Ty), wf ve = true → wfAll ve vs = true →
+    exactAll ve ve vs = true
+  | [], _, _, _ => rfl
+  | v :: vs, ve, hw, hp => by
+    simp only [wfAll, Bool.and_eq_true] at hp
+    simp [exactAll, exactK_self v ve hw hp.1, exactAll_self vs ve hw hp.2]
+theorem exactZip_self : ∀ (vs : List Payload) (ves : List Ty), wfL ves = true → wfZip ves vs = true →
+    exactZip ves ves vs = true
+  | [], _, _, _ => by cases ‹List Ty› <;> simp [exactZip]
+  | _ :: _, [], _, _ => by simp [exactZip]
+  | v :: vs, ve :: ves, hw, hp => by
+    simp only [wfL, Bool.and_eq_true] at hw
+    simp only [wfZip, Bool.and_eq_true] at hp
+    simp [exactZip, exactK_self v ve hw.1 hp.1, exactZip_self vs ves hw.2 hp.2]
+end
+
 end JsonVal
 end CtyModel
